@@ -82,6 +82,8 @@ Proof.
   - apply ctor_safe; auto. apply ctor_n_safe; auto.
   - apply ctor_safe; auto. apply ctor_n_val_safe; auto.
   - apply ctor_safe; auto. apply ctor_range_safe; auto.
+  - apply ctor_safe; auto. rewrite move_insert_eq. apply insert_range_safe; auto.
+    apply (repr_inv c _ []), fresh_repr, Hl.
   - destruct (copy_construct_ok c (sel t s) _ Hc (sel_repr c t s Ha Hb)) as (c0 & -> & Hc0). cbn [rbind].
     destruct d.
     + destruct (mutate_ok c c0 _ x Hc Hc0) as (c1 & -> & Hc1). cbn [rbind safe_step]. auto.
@@ -132,6 +134,9 @@ Proof.
     + rewrite wrapu64_small by (rewrite pow64; lia). lia.
   - cbn [xspec_step] in H. apply guard_none in H. b2p H. cbn [xstep].
     rewrite (ctor_range_contract c); [reflexivity|apply (sel_inv c t s Ha Hb)|lia].
+  - cbn [xspec_step] in H. apply guard_none in H. b2p H. cbn [xstep].
+    rewrite move_insert_eq, (insert_range_contract c _ [] 0 xs Hc (fresh_repr c _ (sel_len c t s Ha Hb))); [reflexivity|].
+    right. right. unfold len in *. cbn [length]. lia.
   - cbn [xspec_step] in H. destruct d; discriminate H.
 Qed.
 End XSafe.
@@ -148,7 +153,7 @@ Theorem xstep_frame : forall pred u s o s' out, touches_only u o = true ->
   xstep pred s o = Ok (s', out) -> sel (negb u) s' = sel (negb u) s.
 Proof.
   intros pred u s o s' out Ht H.
-  destruct o as [o| | | | | | | | | | | | | |]; [destruct o|..]; cbn [touches_only] in Ht; try discriminate Ht;
+  destruct o as [o| | | | | | | | | | | | | | |]; [destruct o|..]; cbn [touches_only] in Ht; try discriminate Ht;
     apply eqb_eq' in Ht; subst u; cbn [xstep step] in H; brk H;
     try (injection H as <- _; try reflexivity; apply sel_upd_other).
 Qed.
